@@ -469,6 +469,8 @@ fn main() {
             env: Env::default(),
             counters: BTreeMap::new(),
             loop_ctr: 0,
+            cur_loop: 0,
+            used_loops: Default::default(),
             brk_ctr: 0,
             used_keys: BTreeSet::new(),
             notes: vec![],
@@ -642,9 +644,8 @@ fn main() {
         for n in el.notes.iter() {
             all_notes.push(format!("{}::{}: {}", fs.src, fs.path, n));
         }
-        let n_loops = el.loop_ctr;
         for k in fs.loops.keys() {
-            if *k >= n_loops {
+            if !el.used_loops.contains(k) {
                 all_notes.push(format!("{}::{}: loop contract #{} matched no loop (skipped)", fs.src, fs.path, k));
             }
         }
